@@ -10,7 +10,7 @@ import sympy as sp
 from . import units as U
 from .opaque import linear, homogeneous, F, scalar_part
 from .report import AnalysisError
-from .sym import (LIB, Tup, DictV, SliceV, RangeV, BoundLib, LibV, as_sym, is_sym, Obj, _const_int, ArrV)
+from .sym import (RaisedV, LIB, Tup, DictV, SliceV, RangeV, BoundLib, LibV, as_sym, is_sym, Obj, _const_int, ArrV)
 
 
 class LoopIdx:
@@ -168,6 +168,15 @@ class LocV:
         return idx.items[0], idx.items[1]
 
     def sym_subscript(self, ev, idx, n, mod):
+        if isinstance(idx, Tup) and len(idx.items) == 2 and isinstance(idx.items[0], SliceV) and idx.items[0].lo is None and idx.items[0].hi is None \
+                and isinstance(idx.items[1], Tup) and idx.items[1].items and all(isinstance(b_, bool) for b_ in idx.items[1].items):
+            # table.loc[:, [True, False, ...]]: the columns where the mask is true, in their order
+            mask = idx.items[1].items
+            if len(mask) != len(self.df.cols):
+                raise RaisedV("IndexError", f"{mod.rel}:{getattr(n, 'lineno', 0)}" if mod else "")
+            out = self.df.copy()
+            out.cols = {k_: v_ for (k_, v_), keep in zip(self.df.cols.items(), mask) if keep}
+            return out
         rows, col = self._col(ev, idx, n, mod)
         if not (isinstance(rows, SliceV) and rows.lo is None and rows.hi is None):
             raise ev.err("unsupported row selection in .loc read", n, mod)
